@@ -1226,6 +1226,9 @@ func (ex *Exec) checkScratchGhosts(fc *FuncContract, key string) {
 	}
 	mention := func(text string) {
 		for _, g := range ex.eng.CS.Ghosts {
+			if isScratchGhost(g.Name) && strings.Contains(text, g.Name) {
+				ex.usesScratch = true
+			}
 			if isScratchGhost(g.Name) && strings.Contains(text, g.Name) && !setAtEntry[g.Name] {
 				ex.eng.errorf("contract of %s mentions the scratch ghost %s without 'at entry set %s = ...'", key, g.Name, g.Name)
 				setAtEntry[g.Name] = true
